@@ -112,9 +112,20 @@ def last_decisions_at_exit(fn):
 def implies_eq(cond, truth):
     """If taking `cond == truth` implies a == b, return (a, b) nodes."""
     c = cond.strip()
-    while c.kind == "UnaryOperator" and c.op == "!":
-        c = c.children[0].strip()
-        truth = not truth
+    hops = 0
+    while hops < 8:
+        hops += 1
+        if c.kind == "UnaryOperator" and c.op == "!":
+            c = c.children[0].strip()
+            truth = not truth
+            continue
+        x = c
+        while x.kind in ("ImplicitCastExpr", "ParenExpr", "ExprWithCleanups") and x.children:
+            x = x.children[0].strip()
+        if x.d.get("inlined") and isinstance(x.d.get("rets"), list) and len(x.d["rets"]) == 1:
+            c = c.fn.node(x.d["rets"][0]).strip()       # the predicate of a folded closure (`spin_until([&]{ return a == b; })`)
+            continue
+        break
     if c.kind == "BinaryOperator" and ((c.op == "==" and truth) or (c.op == "!=" and not truth)):
         return c.children[0], c.children[1]
     return None
